@@ -12,7 +12,6 @@ import (
 	"syscall"
 	"time"
 
-
 	"github.com/bbockelm/cedar/security"
 	"github.com/bbockelm/cedar/stream"
 )
